@@ -1180,3 +1180,65 @@ def gen_tickorder_grace(ds=(1, 6), ngrace=(1,), carriers="cycle"):
                                         yield dict(score=_tickorder_score(d, used_parts, pobjs, metas, ts_change),
                                                    tag="tickorder grace d=%d n=%d lead=%d E=%s G=%d S=%s %s" % (
                                                        d, n, lead, hE, hG, hS, _meta_tag(metas, ts_change)))
+
+
+# ---------------------------------------------------------------------------------------------
+# two DIFFERENT pitches sounding together in different (part, voice) homes, over the edges of the MIDI pitch range
+# (sub-space pitch-range): a reader that keeps its open notes per (channel, pitch) must keep (c, p) and (c', q)
+# apart for every pair of pitches, also the highest pitch of one channel next to the lowest of the next one
+
+PITCHRANGE_HOMES = [(0, 1), (0, 2), (1, 1)]  # (part, voice)
+
+
+def pitchrange_pairs(width=8, full=False):
+    """ordered pitch pairs (pX, pY), pX > pY: the block {128-width..127} x {0..width-1} at the two edges of the MIDI
+    range and, with full=True, every pitch 1..127 against pitch 0 and pitch 127 against every pitch 0..126 (every
+    pitch difference 1..127 at the bottom and at the top of the range)"""
+    out = [(hi, lo) for hi in range(127, 127 - width, -1) for lo in range(width)]
+    if full:
+        out += [(p, 0) for p in range(1, 128) if (p, 0) not in out]
+        out += [(127, q) for q in range(0, 127) if (127, q) not in out]
+    return out
+
+
+def pitchrange_layouts():
+    """(home of X, home of Y, grouped): all ordered pairs of different homes; scores of two parts flat and with
+    the two parts in one group (mode 1 then writes them to two channels of one track)"""
+    H = PITCHRANGE_HOMES
+    out = []
+    for a in range(len(H)):
+        for b in range(len(H)):
+            if a == b:
+                continue
+            two = H[a][0] != H[b][0]
+            for grouped in ((False, True) if two else (False,)):
+                out.append((a, b, grouped))
+    return out
+
+
+def gen_pitchrange(pairs=None):
+    """note X (pitch pX, home hX) and note Y (pitch pY != pX, home hY != hX) in three bars of 4/4, divisions 2:
+    bar 1: X sounds for the whole bar, Y starts and ends inside it; bar 2: X and Y start and end together (a half
+    note), then X (one quarter) is overlapped by Y starting an eighth later; bar 3: Y sounds for the whole bar, X
+    starts and ends inside it.  No two notes of equal pitch ever overlap (pX != pY; notes of one pitch touch or are
+    apart), so every mode is inside the quantifier."""
+    H = PITCHRANGE_HOMES
+    d = 2
+    xs = [(0, 8), (8, 12), (12, 14), (18, 22)]
+    ys = [(2, 6), (8, 12), (13, 16), (16, 24)]
+    for pX, pY in (pitchrange_pairs() if pairs is None else pairs):
+        for a, b, grouped in pitchrange_layouts():
+            used_parts = sorted({H[a][0], H[b][0]})
+            pobjs = {pi: [] for pi in used_parts}
+            for j, (s, e) in enumerate(xs):
+                pobjs[H[a][0]].append(note("x%d" % j, s, e, pX, H[a][1]))
+            for j, (s, e) in enumerate(ys):
+                pobjs[H[b][0]].append(note("y%d" % j, s, e, pY, H[b][1]))
+            parts = []
+            for pi in used_parts:
+                objs = [ts(0, 4, 4)] + bars_cover(24, 8)
+                parts.append(part("P%d" % (pi + 1), [(0, d)], objs + pobjs[pi]))
+            if grouped:
+                parts = [group(parts)]
+            yield dict(score={"parts": parts},
+                       tag="pitchrange X=%d@%s Y=%d@%s grouped=%d" % (pX, list(H[a]), pY, list(H[b]), int(grouped)))
